@@ -22,6 +22,11 @@ func classPW(class, role string) string {
 		return ""
 	case "ascii":
 		return role + "Pw-1"
+	case "blank": // white space only (not empty)
+		if role == "user" {
+			return "  "
+		}
+		return "   "
 	case "space":
 		return role + " pass phrase"
 	case "unicode": // non-ASCII, unchanged by NFKC
@@ -204,7 +209,7 @@ func c22(in, out string, shard, of int) {
 			{"open with the owner password", "", opw, c.Exp.OpenO, pwKey("owner", oclass)},
 			{"open with both passwords", upw, opw, c.Exp.OpenB, pwKey("owner", oclass)},
 		}
-		for _, p := range probes {
+		for pi, p := range probes {
 			checks++
 			ctx, err := proj.Context(enc, pwConf(p.u, p.o))
 			if got := cls(err); got != p.want {
@@ -218,6 +223,13 @@ func c22(in, out string, shard, of int) {
 			}
 			if ok, diff, where := sameView(src.view, v); !ok {
 				fail(fmt.Sprintf("content|%s|%s", c.Doc, where), p.name+": document differs from the original", nil, diff)
+			}
+			// what the opened document says about its permissions; the listing API itself once per case
+			if ctx.E == nil || int(int16(ctx.E.P)) != c.Exp.Perm {
+				fail(fmt.Sprintf("%s|permissions", alg), "permissions of the opened document ("+p.name+")", c.Exp.Perm, fmt.Sprint(ctx.E))
+			}
+			if pi != n%len(probes) {
+				continue
 			}
 			checks++
 			pp, err := api.GetPermissionsFile(enc, pwConf(p.u, p.o))
